@@ -258,7 +258,16 @@ def O3(F, rep, R, FL):
     rep.count('O3')
     d = [f for f in F.functions.get(FILE + '::~File', [])]
     ok = bool(d) and any(n.get('k') == 'Call' and n.get('callee') == FILE + '::close' for n in walk(d[0]['body']))
-    rep.ob('O3', 'dtor|close', ok, rep.fn_site(d[0]) if d else None, '~File calls close()' if ok else '~File does not call close(): threads outlive the object')
+    why = '~File does not call close(): threads outlive the object'
+    if ok:
+        # ... on every path: close() decides itself whether there is anything to shut down (is_open()); a destructor that asks something
+        # else first (good(), eof()) skips the joins exactly when a read session has delivered its last object
+        for evs, out in FL.paths(d[0], follow=()):
+            if not any(e['ev'] == 'call' and e['n'].get('callee') == FILE + '::close' for e in evs):
+                ok = False
+                why = '~File reaches its end without close() on the path %s: the worker threads are still joinable when they are destroyed (std::terminate)' % fmt_events(evs, limit=8)
+                break
+    rep.ob('O3', 'dtor|close', ok, rep.fn_site(d[0]) if d else None, '~File calls close() on every path' if ok else why)
 
 
 def O4(F, rep, R, FL):
@@ -1241,9 +1250,20 @@ def offsets_u2q(F, FL):
         info = {'evs': evs, 'out': out, 'decode_at': None, 'end': None, 'unknown': False, 'guards': []}
         hdr_var = None
         first_read = True
+        marks = {}      # local id -> offset at which it was set to m_uncompressedFile.tellg()
+        decls = {}      # local id -> var
+        info['repos'] = None
         for e in evs:
             if e['ev'] == 'branch':
                 info['guards'].append(e)
+            if e['ev'] == 'decl':
+                v = e['var']
+                decls[v['id']] = v
+                i0 = strip_all_casts(v.get('init')) if v.get('init') is not None else None
+                while isinstance(i0, dict) and i0.get('k') == 'Construct' and len(i0.get('args', [])) == 1:
+                    i0 = strip_all_casts(i0['args'][0])
+                if isinstance(i0, dict) and i0.get('k') == 'Call' and i0.get('fn') == 'tellg' and recv_root(i0) == 'm_uncompressedFile':
+                    marks[v['id']] = off
             if e['ev'] != 'call':
                 continue
             n = e['n']
@@ -1264,16 +1284,71 @@ def offsets_u2q(F, FL):
                 elif a.get('k') == 'Member' and a.get('name') == 'objectSize' and local_id(a.get('base')) == hdr_var:
                     off = off.add(term='objectSize')
                     info['unknown'] = True
+                elif _declared_end_excess(strip_all_casts(n['args'][0]), decls, marks, hdr_var) is not None:
+                    # seekg(-(tellg() - (MARK + objectSize))): continue at MARK + objectSize
+                    off = _declared_end_excess(strip_all_casts(n['args'][0]), decls, marks, hdr_var).add(term='objectSize')
+                    info['repos'] = 'declared-end'
                 elif a.get('k') == 'Ref':
                     off = off.add(term='local:' + a.get('name', '?'))
+                    info['repos'] = 'local:' + a.get('name', '?')
                 elif 'v' in a:
                     off = off.add(c=a['v'])
                 else:
                     off = off.add(term='expr:' + expr_str(a))
+                    info['repos'] = 'expr:' + expr_str(a)
         info['end'] = off
         info['hdr_var'] = hdr_var
         res.append(info)
     return fn, res
+
+
+def _declared_end_excess(arg, decls, marks, hdr_var):
+    """arg is  -(X)  with  X = <stream>.tellg() - (MARK + hdr.objectSize)  (X possibly a local initialised so): returns the offset of MARK"""
+    if not (isinstance(arg, dict) and arg.get('k') in ('Un', 'Call')):
+        return None
+    if arg.get('k') == 'Un' and arg.get('op') == '-':
+        x = strip_all_casts(arg['sub'])
+    elif arg.get('k') == 'Call' and arg.get('ck') == 'operator' and arg.get('op') == '-' and len(arg.get('args', [])) == 1:
+        x = strip_all_casts(arg['args'][0])
+    else:
+        return None
+    for _ in range(3):
+        if isinstance(x, dict) and x.get('k') == 'Ref' and x.get('id') in decls and decls[x['id']].get('init') is not None:
+            x = strip_all_casts(decls[x['id']]['init'])
+        elif isinstance(x, dict) and x.get('k') == 'Paren':
+            x = strip_all_casts(x.get('sub'))
+    parts = None
+    if isinstance(x, dict) and x.get('k') == 'Bin' and x.get('op') == '-':
+        parts = (x['lhs'], x['rhs'])
+    elif isinstance(x, dict) and x.get('k') == 'Call' and x.get('ck') == 'operator' and x.get('op') == '-' and len(x.get('args', [])) == 2:
+        parts = (x['args'][0], x['args'][1])
+    if not parts:
+        return None
+    l, r = strip_all_casts(parts[0]), strip_all_casts(parts[1])
+    for _ in range(3):
+        if isinstance(r, dict) and r.get('k') == 'Paren':
+            r = strip_all_casts(r.get('sub'))
+        elif isinstance(r, dict) and r.get('k') == 'Ref' and r.get('id') in decls and r.get('id') not in marks and decls[r['id']].get('init') is not None:
+            r = strip_all_casts(decls[r['id']]['init'])     # a named local for the declared end
+            while isinstance(r, dict) and r.get('k') == 'Construct' and len(r.get('args', [])) == 1:
+                r = strip_all_casts(r['args'][0])
+    if isinstance(l, dict) and l.get('k') == 'Ref' and l.get('id') in decls and l.get('id') not in marks and decls[l['id']].get('init') is not None:
+        l = strip_all_casts(decls[l['id']]['init'])
+    if not (isinstance(l, dict) and l.get('k') == 'Call' and l.get('fn') == 'tellg' and recv_root(l) == 'm_uncompressedFile'):
+        return None
+    sum_ = None
+    if isinstance(r, dict) and r.get('k') == 'Bin' and r.get('op') == '+':
+        sum_ = (r['lhs'], r['rhs'])
+    elif isinstance(r, dict) and r.get('k') == 'Call' and r.get('ck') == 'operator' and r.get('op') == '+' and len(r.get('args', [])) == 2:
+        sum_ = (r['args'][0], r['args'][1])
+    if not sum_:
+        return None
+    a, b = strip_all_casts(sum_[0]), strip_all_casts(sum_[1])
+    for m_, o_ in ((a, b), (b, a)):
+        if isinstance(m_, dict) and m_.get('k') == 'Ref' and m_.get('id') in marks and isinstance(o_, dict) and o_.get('k') == 'Member' and \
+                o_.get('name') == 'objectSize' and local_id(o_.get('base')) == hdr_var:
+            return marks[m_['id']]
+    return None
 
 
 def S2S3(F, rep, FL, rules):
@@ -1428,15 +1503,78 @@ def T1(F, rep, FL):
                        'and found again forever' % lo)
                 break
         else:
-            # net = CONSUMED + tmp, tmp in {0, objectSize - calculateObjectSize()}; fixed-layout codecs consume calculateObjectSize() bytes,
-            # so the net advance is >= min(CONSUMED, objectSize) - requires a positive lower bound on objectSize
-            if lo <= 0:
-                bad = ('known-type path re-positions by objectSize - calculateObjectSize() after decoding; with objectSize unconstrained (lower bound %d) '
-                       'the net advance can be 0 and the same object is delivered forever' % lo)
-                break
+            end = i['end']
+            if i.get('repos') == 'declared-end':
+                # continue at (object start) + objectSize: needs the start mark at offset 0 and a positive lower bound on objectSize
+                if end.c != 0 or end.t != {'objectSize': 1}:
+                    bad = 'known-type path continues at offset [%r], not at object start + objectSize' % end
+                    break
+                if lo <= 0:
+                    bad = ('known-type path continues at the declared end of the object; with objectSize unconstrained (lower bound %d) the net advance '
+                           'can be 0 and the same object is delivered forever' % lo)
+                    break
+            elif str(i.get('repos')).startswith('expr:'):
+                raise AnalysisBroken('T1: the re-positioning after the decode (%s) is of a form the offset algebra does not know' % i['repos'][:160])
+            elif i.get('repos') is None:
+                # no re-positioning on this path: the advance is what the decoder consumed - at least its header (checked below)
+                if end.t.get('CONSUMED') != 1 or end.c != 0 or len(end.t) != 1:
+                    bad = 'known-type path ends at offset [%r]' % end
+                    break
+            else:
+                # the former shape: seekg(tmp), tmp = objectSize - calculateObjectSize() of the *fresh* object.  The net advance is
+                # CONSUMED + objectSize - calculateObjectSize(): positive only if the decoder consumed what the fresh object's size function says
+                short_readers = _classes_reading_by_size(F)
+                if lo <= 0:
+                    bad = ('known-type path re-positions by objectSize - calculateObjectSize() after decoding; with objectSize unconstrained (lower bound %d) '
+                           'the net advance can be 0 and the same object is delivered forever' % lo)
+                    break
+                if short_readers:
+                    bad = ('known-type path re-positions by objectSize - calculateObjectSize() of the freshly constructed object, i.e. it assumes read() consumed '
+                           'exactly that many bytes; %d classes consume less for objects that declare a smaller / older layout (%s): for those the net '
+                           'advance is objectSize - (calculateObjectSize() - consumed), which is <= 0 for small declared sizes - the same object is '
+                           'found and delivered forever' % (len(short_readers), ', '.join(short_readers[:6])))
+                    break
+    # every decoder consumes at least the object header: each object class's read() starts with a base-class read()
+    if bad is None:
+        from rules_layout import object_classes
+        nohdr = []
+        for c in object_classes(F):
+            ok_c = False
+            for f in F.method(c, 'read'):
+                for x in walk(f['body']):
+                    if x.get('k') == 'Call' and x.get('fn') == 'read' and x.get('calleeInRoot') and (x.get('callee') or '').rsplit('::', 2)[-2:-1] != [c.rsplit('::', 1)[-1]]:
+                        ok_c = True
+            if not ok_c and c != OHB:
+                nohdr.append(short(c))
+        if nohdr:
+            bad = 'decoders that do not start with the header read (no guaranteed consumption): %s' % ', '.join(nohdr[:5])
     rep.ob('T1', 'decode-loop|progress', bad is None and n > 0, rep.fn_site(fn),
            'uncompressedFile2ReadWriteQueue: every iteration that delivers or skips an object advances the stream by at least the guarded '
            'minimum object size (%d paths)' % n if bad is None else 'uncompressedFile2ReadWriteQueue: ' + bad, nontrivial=True)
+
+
+def _classes_reading_by_size(F):
+    """object classes whose read() takes a decision on the declared objectSize (optional tails, version probes): what they consume depends
+    on the file, not on the size function of a fresh object"""
+    import core as _core
+    from rules_layout import LayoutRules, object_classes
+    LR = LayoutRules(F, _core.Report(F))
+    out = []
+    for c in object_classes(F):
+        try:
+            I, paths = LR.read_paths(c)
+        except AnalysisBroken:
+            continue
+        dep = False
+        for p in paths:
+            for g in p.guards:
+                if isinstance(g, tuple) and g[0] == 'cmp':
+                    for t, k in g[1]:
+                        if t[0] == 'in' and t[1] and t[1][-1] == 'objectSize':
+                            dep = True
+        if dep:
+            out.append(short(c))
+    return sorted(out)
 
 
 # ---------------------------------------------------------------------- B7 copy loops of the in-memory stream
@@ -1583,6 +1721,23 @@ def R1(F, rep):
             problems = []
             if cnt is None:
                 problems.append('cannot identify the count of the copy')
+            if is_read and cnt is not None:
+                asg = [x for x in walk(fn['body'], into_lambda=False) if x.get('k') == 'Bin' and x.get('op') == '=' and mname(x['lhs']) == 'm_gcount']
+                if 'm_gcount' in upd:
+                    # accumulated in place: it must start from 0 in front of the loop
+                    if not any(x.get('l', 0) <= lp.get('l', 0) and any(y.get('v') == 0 for y in walk(x['rhs'])) for x in asg):
+                        problems.append('m_gcount is accumulated in the loop but not reset in front of it: the count of the previous read is added')
+                else:
+                    # accumulated in a local and stored once behind the loop - then nothing may leave the function from inside the loop
+                    locs = [k_ for k_, v_ in upd.items() if v_ == ('+=', cnt) and k_ not in ('s', 'n', 'm_tellg', 'm_tellp')]
+                    stored = [x for x in asg if x.get('l', 0) > lp.get('l', 0) and (strip_all_casts(x['rhs']) or {}).get('name') in locs]
+                    rets = [x for x in walk(lp['body']) if x.get('k') == 'Return']
+                    if locs and stored and not rets:
+                        want.pop('m_gcount')
+                    elif locs and stored and rets:
+                        want.pop('m_gcount')
+                        problems.append('the byte count is accumulated in %s and stored into m_gcount behind the loop, but line %s returns from inside the loop: '
+                                        'gcount() then still reports the previous read' % (locs[0], rets[0].get('l')))
             for name, op in want.items():
                 if name not in upd:
                     problems.append('%s is not advanced in the loop' % name)
@@ -1689,12 +1844,11 @@ def R4(F, rep):
             rep.ob('R4', '%s|%s' % (short(fn['name']) + ('/container' if 'shared_ptr' in fn['sig'] else ''), mname(tgt)), problem is None, rep.fn_site(fn, n.get('l')),
                    '%s: the partial step %s is repeated until the request is used up' % (short(fn['name']), step) if problem is None else
                    '%s: %s' % (short(fn['name']), problem), nontrivial=True)
-    if found < 2:
-        raise AnalysisBroken('R4: expected the partial steps of UncompressedFile::read and ::write, found %d' % found)
+    # (fewer than two partial steps is left to the floor of R4 in rules/floors.json: another rule - B7 - may have more to say)
 
 
 # ---------------------------------------------------------------------- R5: the put position moves only over stored bytes
-def R5(F, rep):
+def R5(F, rep, FL=None):
     """the put position of the stream is advanced only (a) by the number of bytes a std::copy has just stored in a container, in the same
     loop body, (a') by a step bounded by the room left in the container that holds the put position, or (b) by the size of the container that the same function appends to the list.  Any other advance moves the position over
     bytes no container holds: a later write then starts a container with a hole in front of it, the reader finds no container at the get
@@ -1744,7 +1898,16 @@ def R5(F, rep):
                         r_ = deep_resolve(rhs, fn)
                         mem = [x for x in walk(r_) if x.get('k') == 'Member' and x.get('name') == 'uncompressedFileSize']
                         ok = bool(mem) and pushed is not None and _ptr_root(mem[0]) == pushed
-                if not ok:
+                        if ok and FL is not None:
+                            # ... on every path: an early exit that advances the position without storing the container leaves a hole
+                            for evs, out in FL.paths(fn, follow=(), unroll=1):
+                                adv = [i_ for i_, e_ in enumerate(evs) if e_['ev'] in ('assign', 'call') and e_['n'] is n]
+                                if adv and not any(e_['ev'] == 'call' and e_['n'] is pushes[0] for e_ in evs):
+                                    ok = False
+                                    problem = ('m_tellp += %s on a path that does not append the container (%s): the put position moves over bytes no '
+                                               'container holds' % (step, fmt_events(evs, limit=10)))
+                                    break
+                if not ok and problem is None:
                     problem = ('m_tellp += %s is neither the count of a std::copy into a container in the same loop nor the size of a container this '
                                'function appends: the put position moves over bytes no container holds' % step)
             rep.ob('R5', '%s|m_tellp@%s' % (short(fn['name']) + ('/container' if 'shared_ptr' in fn['sig'] else ''), found), problem is None, rep.fn_site(fn, n.get('l')),
@@ -2162,11 +2325,18 @@ def K12(F, rep, R, FL):
         entry = F.fn(q)
         flags = set()
         for n in walk(entry['body'], into_lambda=False):
-            if n.get('k') in ('While', 'Do', 'For') and n.get('cond') is not None:
-                for x in walk(deep_resolve(n['cond'], entry)):
+            if n.get('k') not in ('While', 'Do', 'For'):
+                continue
+            # what decides whether the loop goes on: its condition, and the conditions of the ifs in its body that break / return
+            conds = [n['cond']] if n.get('cond') is not None else []
+            for y in walk(n.get('body') or {}, into_lambda=False):
+                if y.get('k') == 'If' and any(z.get('k') in ('Break', 'Return') for br in (y.get('then'), y.get('else')) if br for z in walk(br)):
+                    conds.append(y['cond'])
+            for c in conds:
+                for x in walk(deep_resolve(c, entry)):
                     if x.get('k') == 'Member' and x.get('dk') == 'field' and F.field(FILE, x.get('name')) is not None:
                         b = strip_all_casts(x.get('base'))
-                        if isinstance(b, dict) and b.get('k') in ('Ref', 'This'):
+                        if isinstance(b, dict) and b.get('k') in ('Ref', 'This') and not F.field(FILE, x['name'])[1].get('rec', '').startswith('Vector::BLF::'):
                             flags.add(x['name'])
         bad = None
         npaths = 0
@@ -2226,6 +2396,56 @@ def E5(F, rep, R):
         raise AnalysisBroken('E5: expected the two read workers and their transfer functions, found %d functions' % n_fn)
 
 
+def O5(F, rep):
+    """the pipeline classes keep no raw pointer, reference or iterator member into storage that another member owns: the containers of
+    the stream live in shared_ptrs that dropOldData() releases, queue elements are handed out - a cached `LogContainer *` / iterator
+    dangles as soon as the element is popped"""
+    rep.count('O5')
+    bad = []
+    n = 0
+    for cls in core_pipeline_classes(F):
+        r = F.records.get(cls)
+        if not r:
+            continue
+        for f in r['fields']:
+            n += 1
+            t = f.get('t') or ''
+            if t.rstrip().endswith('*') or t.rstrip().endswith('&') or 'iterator' in t or t.startswith('std::weak_ptr') or t.startswith('std::reference_wrapper'):
+                if 'Vector::BLF::' in t or 'iterator' in t:
+                    bad.append('%s::%s (%s)' % (short(cls), f['name'], t))
+    rep.ob('O5', 'non-owning-members', not bad and n > 0, None,
+           'no pipeline class holds a raw pointer / reference / iterator member into storage owned elsewhere (%d members)' % n if not bad else
+           'non-owning member into released storage: %s - it dangles once the element is dropped or handed over' % '; '.join(bad[:3]), nontrivial=True)
+
+
+def core_pipeline_classes(F):
+    import core
+    out = [c for c in core.PIPELINE_CLASSES if c in F.records]
+    out += [c for c in F.records if c.startswith('Vector::BLF::ObjectQueue<')]
+    return out
+
+
+def K13(F, rep, R):
+    """abort() of a stage is a shutdown action: it is called by close() and by the stage's own destructor, never by a worker.  abort()
+    disables every wait of the stage for good - a producer that keeps running behind it (the other worker is only stopped by close())
+    is no longer held back by the capacity and buffers the rest of the file"""
+    rep.count('K13')
+    allowed = {R.close_fn['name']}
+    bad = []
+    n = 0
+    for name, fns in F.functions.items():
+        for fn in fns:
+            for x in walk(fn['body']):
+                if x.get('k') == 'Call' and x.get('fn') == 'abort' and x.get('calleeInRoot'):
+                    n += 1
+                    if fn['name'] in allowed or fn.get('kind') == 'dtor':
+                        continue
+                    bad.append('%s calls %s (line %s)' % (short(fn['name']), short(x.get('callee') or 'abort'), x.get('l')))
+    rep.ob('K13', 'abort|callers', not bad and n > 0, rep.fn_site(R.close_fn),
+           'abort() is called only by File::close() and by destructors (%d call sites)' % n if not bad else
+           'abort() outside the shutdown path: %s - the waits of that stage are disabled while the other worker still runs' % '; '.join(bad[:3]), nontrivial=True)
+
+
 def G1(F, rep):
     """no mutable function-local static in library code: such state is shared by all threads and all File instances without
     synchronisation (and makes output depend on earlier activity in the process)"""
@@ -2240,6 +2460,12 @@ def G1(F, rep):
                     for v in n['vars']:
                         if v.get('static') and not v.get('constType'):
                             bad.append('%s in %s (%s:%s)' % (v['name'], short(fn['name']), F.rel(fn['file']), n.get('l')))
+                        elif v.get('static') and v.get('init') is not None and \
+                                any(x.get('k') in ('Call', 'Member', 'This', 'New') or (x.get('k') == 'Ref' and x.get('dk') in ('local', 'parm')) for x in walk(v['init'])) and \
+                                'v' not in (strip_all_casts(v['init']) or {}):
+                            # const, but initialised from run-time state by whoever comes first: every later caller (another File, another
+                            # configuration) lives with that value
+                            bad.append('%s in %s (%s:%s; const, initialised once from run-time state)' % (v['name'], short(fn['name']), F.rel(fn['file']), n.get('l')))
     rep.ob('G1', 'static-locals', not bad, None,
            'no mutable function-local static variable in %d library functions' % nfn if not bad else
            'mutable function-local static state: ' + '; '.join(bad[:4]), nontrivial=True)
